@@ -91,7 +91,7 @@ def oracle_C07(ctx, pexpect, results, n_extra):
     for it in range(n_extra):
         enc = rng.choice(['utf-8', 'utf-16', 'utf-16-le', 'latin-1', 'cp1252', 'shift_jis', 'utf-32'])
         errors = rng.choice(['strict', 'replace', 'ignore'])
-        text = ''.join(rng.choice(['a', 'b', 'é', 'ソ', '☃', '\n', '1']) for _ in range(rng.randint(1, 10)))
+        text = ''.join(rng.choice(['a', 'b', 'é', 'ソ', '☃', '\n', '1', '\ufeff', '\x00', '\r', '\ufffd', '\u2028']) for _ in range(rng.randint(1, 10)))
         try:
             raw = text.encode(enc)
         except UnicodeEncodeError:
@@ -254,6 +254,7 @@ def oracle_C08(ctx, pexpect, results, real_peers):
         real_peer_send(ctx, pexpect)
         send_after_await(ctx, pexpect)
         send_after_reads(ctx, pexpect)
+        send_with_other_ops(ctx, pexpect)
 
 
 def write_all_cases(ctx, pexpect, n):
@@ -443,6 +444,44 @@ def send_after_reads(ctx, pexpect):
                     except OSError:
                         pass
     ctx.oracle_stats['send_after_reads'] = tried
+
+
+def send_with_other_ops(ctx, pexpect):
+    """pty transport, a child that is slow to read: between two sends the application does other things with the object that are
+    not sends (echo on/off, window size, liveness, attribute reads): none of them may take away what was sent and not yet read"""
+    prog = ("import os,sys,time,tty\ntty.setraw(0)\nos.write(1,b'READY')\ntime.sleep(1.2)\nd=b''\n"
+            "while not d.endswith(b'\\x04'):\n    x=os.read(0,65536)\n    if not x: break\n    d+=x\nos.write(1,('GOT %s.' % d[:-1].hex()).encode())\n")
+    tried = 0
+    for ops in (['setecho-off'], ['setecho-on'], ['setwinsize', 'getecho'], ['isalive', 'getwinsize', 'setecho-off', 'setecho-on']):
+        c = pexpect.spawn(sys.executable, ['-c', prog], timeout=20)
+        try:
+            c.expect('READY')
+            c.send(b'first answer;')
+            time.sleep(0.4)                    # the terminal has queued it; the child is not reading yet
+            for op in ops:
+                if op.startswith('setecho'):
+                    c.setecho(op.endswith('on'))
+                elif op == 'setwinsize':
+                    c.setwinsize(30, 100)
+                elif op == 'getwinsize':
+                    c.getwinsize()
+                elif op == 'getecho':
+                    c.getecho()
+                else:
+                    c.isalive()
+            c.send(b'second answer\x04')
+            c.expect(r'GOT ([0-9a-f]*)\.', timeout=20)
+            got = bytes.fromhex(c.match.group(1).decode())
+        except Exception as e:
+            ctx.hit('C08/other-ops', 'pty transport, slow reader, send / %r / send: %r' % (ops, e), {'ops': ops})
+            return
+        finally:
+            c.close(force=True)
+        tried += 1
+        if got != b'first answer;second answer':
+            ctx.hit('C08/other-ops', 'pty transport: send(first), then %r while the child was not reading yet, then send(second): the child received %r' % (ops, got), {'ops': ops})
+            return
+    ctx.oracle_stats['send_with_other_ops'] = tried
 
 
 def real_peer_send(ctx, pexpect):
